@@ -1,6 +1,6 @@
 CONSTANTS
   Server = {1, 2, 3}
-  Campaigners = {1, 3}
+  Campaigners = {1, 2}
   MaxTerm = 2
   MaxProposals = 0
   MaxCrashes = 0
@@ -22,9 +22,9 @@ CONSTANTS
   PreVote = FALSE
   W_PreVoteRespCountsAsVote = FALSE
   ConfChange = TRUE
-  InitVoters = {1, 2}
-  AddVoters = {3}
-  RemoveVoters = {1, 2}
+  InitVoters = {1, 2, 3}
+  AddVoters = {}
+  RemoveVoters = {2, 3}
   MaxConfChanges = 2
   MaxConfRefusals = 0
   W_ConfChangeNoPendingCheck = FALSE
